@@ -807,16 +807,28 @@ func yamlCauseSig(def string, err error, differs string, r resource.Resource) st
 		return false
 	}
 
+	// when both the metadata and the spec of a resource hold such a string, the metadata is blamed only if it fails on its own
+	mdAloneFails := func() bool {
+		b, e := yaml.Marshal(r.Metadata())
+		if e != nil {
+			return true
+		}
+
+		var back resource.Metadata
+
+		return yaml.Unmarshal(b, &back) != nil || !back.Equal(*r.Metadata())
+	}
+
 	if err != nil && strings.Contains(err.Error(), "found a tab character where an indentation space is expected") {
 		switch {
-		case firstLineStarts(mdStrings(r.Metadata()), "\t"):
+		case firstLineStarts(mdStrings(r.Metadata()), "\t") && mdAloneFails():
 			return "yaml-tab-led-multiline-string-unreadable"
 		case firstLineStarts(specStrings(r), "\t"):
 			return "yaml-spec-tab-led-multiline-string-unreadable"
 		}
 	}
 
-	if (err != nil || strings.Contains(differs, "finalizers")) && firstLineStarts(*r.Metadata().Finalizers(), " ") {
+	if (err != nil || strings.Contains(differs, "finalizers")) && firstLineStarts(*r.Metadata().Finalizers(), " ") && mdAloneFails() {
 		return "yaml-space-led-multiline-list-item-corrupted"
 	}
 
